@@ -1,0 +1,224 @@
+//go:build verif
+
+package hashgraph
+
+import (
+	"sort"
+)
+
+// This file only exists under the "verif" build tag. It holds the hook
+// variables and read-only accessors used by the deterministic simulation
+// harness. With every hook variable left nil the package behaves exactly as
+// without the tag.
+
+// SimNow, when set, supplies the creation timestamp of new Events (per-creator
+// simulated clock).
+var SimNow func(creator []byte) int64
+
+// SimPermute, when set, returns a permutation of 0..n-1 chosen by the
+// simulator. It fixes iteration orders that the shipped code leaves to the
+// runtime's map randomisation.
+var SimPermute func(site string, n int) []int
+
+// SimStoreHook, when set, is called around every Badger commit of the store
+// (phase "pre" before tx.Commit, "post" after it returned). A non-nil error
+// returned at "pre" is returned by the store instead of committing.
+var SimStoreHook func(path, kind, phase string) error
+
+func simEventBody(b *EventBody) {
+	if SimNow != nil {
+		b.Timestamp = SimNow(b.Creator)
+	}
+}
+
+func simOrderSigs(sigs []BlockSignature) {
+	if SimPermute == nil || len(sigs) <= 1 {
+		return
+	}
+	sort.Slice(sigs, func(i, j int) bool { return sigs[i].Key() < sigs[j].Key() })
+	perm := SimPermute("SigPool.Slice", len(sigs))
+	tmp := make([]BlockSignature, len(sigs))
+	copy(tmp, sigs)
+	for i, p := range perm {
+		sigs[i] = tmp[p]
+	}
+}
+
+// simProcessSigPool re-enters ProcessSigPool once per pending signature, with
+// a one-entry pool, in an order chosen by the simulator.
+func simProcessSigPool(h *Hashgraph) (bool, error) {
+	if SimPermute == nil || h.PendingSignatures.Len() <= 1 {
+		return false, nil
+	}
+	full := h.PendingSignatures
+	keys := make([]string, 0, len(full.items))
+	for k := range full.items {
+		keys = append(keys, k)
+	}
+	sort.Strings(keys)
+	perm := SimPermute("ProcessSigPool", len(keys))
+	defer func() { h.PendingSignatures = full }()
+	for _, p := range perm {
+		k := keys[p]
+		single := NewSigPool()
+		single.items[k] = full.items[k]
+		h.PendingSignatures = single
+		err := h.ProcessSigPool()
+		if _, still := single.items[k]; !still {
+			delete(full.items, k)
+		}
+		if err != nil {
+			return true, err
+		}
+	}
+	return true, nil
+}
+
+// simUpdateAncestors re-enters updateAncestorFirstDescendant once per entry of
+// event.lastAncestors, in an order chosen by the simulator.
+func simUpdateAncestors(h *Hashgraph, event *Event) (bool, error) {
+	if SimPermute == nil || len(event.lastAncestors) <= 1 {
+		return false, nil
+	}
+	full := event.lastAncestors
+	keys := make([]string, 0, len(full))
+	for k := range full {
+		keys = append(keys, k)
+	}
+	sort.Strings(keys)
+	perm := SimPermute("updateAncestorFirstDescendant", len(keys))
+	defer func() { event.lastAncestors = full }()
+	for _, p := range perm {
+		k := keys[p]
+		event.lastAncestors = CoordinatesMap{k: full[k]}
+		if err := h.updateAncestorFirstDescendant(event); err != nil {
+			return true, err
+		}
+	}
+	return true, nil
+}
+
+func simStorePoint(s *BadgerStore, kind, phase string) error {
+	if SimStoreHook == nil {
+		return nil
+	}
+	return SimStoreHook(s.path, kind, phase)
+}
+
+/*******************************************************************************
+Read-only accessors
+*******************************************************************************/
+
+// SimTopologicalIndex returns the private topologicalIndex.
+func (e *Event) SimTopologicalIndex() int { return e.topologicalIndex }
+
+// SimRound returns the private round (-1 if unset).
+func (e *Event) SimRound() int {
+	if e.round == nil {
+		return -1
+	}
+	return *e.round
+}
+
+// SimLamport returns the private lamport timestamp (-1 if unset).
+func (e *Event) SimLamport() int {
+	if e.lamportTimestamp == nil {
+		return -1
+	}
+	return *e.lamportTimestamp
+}
+
+// SimRoundReceived returns the private round-received (-1 if unset).
+func (e *Event) SimRoundReceived() int {
+	if e.roundReceived == nil {
+		return -1
+	}
+	return *e.roundReceived
+}
+
+// SimLastAncestors returns the private lastAncestors map.
+func (e *Event) SimLastAncestors() CoordinatesMap { return e.lastAncestors }
+
+// SimFirstDescendants returns the private firstDescendants map.
+func (e *Event) SimFirstDescendants() CoordinatesMap { return e.firstDescendants }
+
+// SimWireInfo returns the private wire fields.
+func (e *Event) SimWireInfo() (selfParentIndex int, otherParentCreatorID uint32, otherParentIndex int, creatorID uint32) {
+	return e.Body.selfParentIndex, e.Body.otherParentCreatorID, e.Body.otherParentIndex, e.Body.creatorID
+}
+
+// SimRoundLowerBound returns roundLowerBound (-1 if unset).
+func (h *Hashgraph) SimRoundLowerBound() int {
+	if h.roundLowerBound == nil {
+		return -1
+	}
+	return *h.roundLowerBound
+}
+
+// SimTopologicalCounter returns the next topological index.
+func (h *Hashgraph) SimTopologicalCounter() int { return h.topologicalIndex }
+
+// SimRoundOf exposes the private round function.
+func (h *Hashgraph) SimRoundOf(x string) (int, error) { return h.round(x) }
+
+// SimWitness exposes the private witness function.
+func (h *Hashgraph) SimWitness(x string) (bool, error) { return h.witness(x) }
+
+// SimLamportOf exposes the private lamportTimestamp function.
+func (h *Hashgraph) SimLamportOf(x string) (int, error) { return h.lamportTimestamp(x) }
+
+// SimDecided returns the sticky decided flag of a RoundInfo.
+func (r *RoundInfo) SimDecided() bool { return r.decided }
+
+// SimFame returns (witness, fame) of an event in a RoundInfo; fame is
+// 0 undefined, 1 true, 2 false.
+func (r *RoundInfo) SimFame(x string) (known bool, witness bool, fame int) {
+	re, ok := r.CreatedEvents[x]
+	if !ok {
+		return false, false, 0
+	}
+	return true, re.Witness, int(re.Famous)
+}
+
+// SimInmem returns the in-memory layer of a BadgerStore.
+func (s *BadgerStore) SimInmem() *InmemStore { return s.inmemStore }
+
+// DB-level readers of the BadgerStore.
+func (s *BadgerStore) SimDBGetEvent(key string) (*Event, error) { return s.dbGetEvent(key) }
+func (s *BadgerStore) SimDBTopologicalEvents(start, count int) ([]*Event, error) {
+	return s.dbTopologicalEvents(start, count)
+}
+func (s *BadgerStore) SimDBParticipantEvents(p string, skip int) ([]string, error) {
+	return s.dbParticipantEvents(p, skip)
+}
+func (s *BadgerStore) SimDBParticipantEvent(p string, index int) (string, error) {
+	return s.dbParticipantEvent(p, index)
+}
+func (s *BadgerStore) SimDBGetBlock(i int) (*Block, error)          { return s.dbGetBlock(i) }
+func (s *BadgerStore) SimDBGetFrame(i int) (*Frame, error)          { return s.dbGetFrame(i) }
+func (s *BadgerStore) SimDBGetRound(i int) (*RoundInfo, error)      { return s.dbGetRound(i) }
+func (s *BadgerStore) SimDBGetRoot(p string) (*Root, error)         { return s.dbGetRoot(p) }
+func (s *BadgerStore) SimDBGetPeerSetRaw(r int) ([]string, error) {
+	ps, err := s.dbGetPeerSet(r)
+	if err != nil {
+		return nil, err
+	}
+	return ps.PubKeys(), nil
+}
+func (s *BadgerStore) SimDBGetRepertoireKeys() ([]string, error) {
+	rep, err := s.dbGetRepertoire()
+	if err != nil {
+		return nil, err
+	}
+	res := []string{}
+	for k := range rep {
+		res = append(res, k)
+	}
+	sort.Strings(res)
+	return res, nil
+}
+
+// SimCacheLens reports how many items the LRU caches of an InmemStore hold.
+func (s *InmemStore) SimCacheLens() (events, rounds, blocks, frames int) {
+	return s.eventCache.Len(), s.roundCache.Len(), s.blockCache.Len(), s.frameCache.Len()
+}
